@@ -204,17 +204,17 @@ theorem client_ok (msgs : List Bytes) (b : Bool) :
   rw [handleAll_append, handleAll_msgs msgs _ rfl rfl]
   simp [CStream.handleAll, CStream.handle, kError, kMessage, kCloseSend]
 
-theorem recv_delivered (c : CStream) (n : Nat) (h : n < c.delivered.length) :
-    c.recv false n = .msg c.delivered[n] := by
+theorem recv_delivered (c : CStream) (u : Bool) (n : Nat) (h : n < c.delivered.length) :
+    c.recv u n = .msg c.delivered[n] := by
   simp [CStream.recv, h]
 
-theorem recv_after_err (c : CStream) (n : Nat) (e : Err) (h : c.delivered.length ≤ n)
-    (hc : c.closed = some (.err e)) : c.recv false n = .error e.text (code (some e)) := by
+theorem recv_after_err (c : CStream) (u : Bool) (n : Nat) (e : Err) (h : c.delivered.length ≤ n)
+    (hc : c.closed = some (.err e)) : c.recv u n = .error e.text (code (some e)) := by
   have : c.delivered[n]? = none := by simp [h]
   simp [CStream.recv, this, hc]
 
-theorem recv_after_eof (c : CStream) (n : Nat) (h : c.delivered.length ≤ n)
-    (hc : c.closed = some .eof) : c.recv false n = .eof := by
+theorem recv_after_eof (c : CStream) (u : Bool) (n : Nat) (h : c.delivered.length ≤ n)
+    (hc : c.closed = some .eof) : c.recv u n = .eof := by
   have : c.delivered[n]? = none := by simp [h]
   simp [CStream.recv, this, hc]
 
@@ -282,14 +282,13 @@ theorem handleAll_noErr (ps : List Pkt) : ∀ (c : CStream), noErrPkt ps → c.n
 theorem recv_noErr (c : CStream) (hc : c.noErr) (u : Bool) (n : Nat) : ∀ t k, c.recv u n ≠ .error t k := by
   intro t k
   unfold CStream.recv
+  simp only
   split
   · simp
   · split
     · simp
-    · split
-      · simp
-      · next e he => exact absurd he (hc e)
-      · simp
+    · next e he => exact absurd he (hc e)
+    · simp
 
 /-! ### both ends -/
 
@@ -311,25 +310,25 @@ theorem recv_of_fail (c : CStream) (msgs : List Bytes) (e : Err)
     (hc : c = { delivered := msgs, closed := some (.err (unmarshalError (marshalError e))),
                 sendSet := true, term := true }) :
     c.delivered = msgs ∧
-    (∀ n (hn : n < msgs.length), c.recv false n = .msg msgs[n]) ∧
-    (∀ n, msgs.length ≤ n → c.recv false n = .error e.text (code (some e))) := by
+    (∀ u n (hn : n < msgs.length), c.recv u n = .msg msgs[n]) ∧
+    (∀ u n, msgs.length ≤ n → c.recv u n = .error e.text (code (some e))) := by
   subst hc
   refine ⟨rfl, ?_, ?_⟩
-  · intro n hn
-    exact recv_delivered _ n hn
-  · intro n hn
-    rw [recv_after_err _ n _ hn rfl, unmarshal_marshal_text, unmarshal_marshal_code]
+  · intro u n hn
+    exact recv_delivered _ u n hn
+  · intro u n hn
+    rw [recv_after_err _ u n _ hn rfl, unmarshal_marshal_text, unmarshal_marshal_code]
 
 theorem recv_of_ok (c : CStream) (msgs : List Bytes) (b : Bool)
     (hc : c = { delivered := msgs, closed := some .eof, sendSet := b, term := b }) :
     c.delivered = msgs ∧
-    (∀ n (hn : n < msgs.length), c.recv false n = .msg msgs[n]) ∧
-    (∀ n, msgs.length ≤ n → c.recv false n = .eof) := by
+    (∀ u n (hn : n < msgs.length), c.recv u n = .msg msgs[n]) ∧
+    (∀ u n, msgs.length ≤ n → c.recv u n = .eof) := by
   subst hc
   refine ⟨rfl, ?_, ?_⟩
-  · intro n hn
-    exact recv_delivered _ n hn
-  · intro n hn
-    exact recv_after_eof _ n hn rfl
+  · intro u n hn
+    exact recv_delivered _ u n hn
+  · intro u n hn
+    exact recv_after_eof _ u n hn rfl
 
 end Drpc
